@@ -394,7 +394,8 @@ func c05RetS(t *rapid.T, ev *evProp, gi *GroupInfo, op string, ret kyber.Scalar,
 const c05Rule = "case = one group + a program of 1..12 API calls (point ops Add/Sub/Neg/Mul/Mul(s,nil)/Null/Base/Set/Clone/Pick/Embed and scalar ops " +
 	"Add/Sub/Neg/Mul/Div/Inv/Set/Clone/Zero/One/SetInt64/SetBytes/Pick) over a pool of 4 point and 3 scalar variables with receiver and operands drawn independently; " +
 	"after every step the encodings of all 7 variables and of the returned value are compared with a twin execution on fresh, unaliased values re-created from bytes. " +
-	"non-trivial = some step has the receiver aliasing an operand (or both operands equal) or touches a variable connected to another by an earlier Clone/Set; distinct = distinct (group, program text)"
+	"non-trivial = some step has the receiver aliasing an operand (or both operands equal) or touches a variable connected to another by an earlier Clone/Set; distinct = distinct (group, program text)" +
+	" Added: after every program the group constants (Base, Null) are overwritten through values obtained from them and compared with the process-start snapshot."
 
 func TestC05_Programs(t *testing.T) {
 	ev := evFor("C05")
